@@ -21,8 +21,8 @@ TECH = {
  "C14": "explicit-state search in which null moves are transitions (deviation bound <=2): refusal iff in check, result vs reference model and vs freshly constructed boards; clock roots repeated in the release profile",
  "C15": "bounded exhaustive exploration x all 28,672 move values per visited state through try_play (and panicking play on a smaller family): acceptance vs reference legality, result equality, atomicity on failure",
  "C16": "bounded exhaustive exploration x mask menu x every listener abort point: delivered moves vs reference legal moves filtered by origin, batch invariants, abort contract",
- "C17": "exhaustive enumeration over 6 pieces x 64 origins x a finite family of destination sets x queried moves against a reference enumeration",
- "C18": "exhaustive enumeration over a finite family of bitboards (all ordered pairs) against a [bool;64] reference set; complete subset iteration for all masks up to 14 bits",
+ "C17": "exhaustive enumeration over 6 pieces x 64 origins x a finite family of destination sets x queried moves against a reference enumeration, in builds with and without overflow checks",
+ "C18": "exhaustive enumeration over a finite family of bitboards (all ordered pairs) against a [bool;64] reference set; complete subset iteration for all masks up to 14 bits; in builds with and without overflow checks",
  "C19": "complete enumeration: 64 squares x 256 x 256 offset pairs in builds with and without overflow checks; every Unicode scalar value for char conversions; all short strings for FromStr",
  "C20": "bounded exhaustive exploration: every legal move of every visited board through the SAN/UCI writers vs reference canonical SAN / standard UCI and back through the readers; exhaustive component-grammar string universe for the SAN reader",
 }
